@@ -22,6 +22,7 @@
 #include "lpc/functional.h"
 #include "lpc/program.h"
 #include "src/interpret.h"
+#include "lpc/lex.h"
 
 #define NSLOT 10
 #define NOBJ 4
@@ -165,6 +166,15 @@ static void track (void *p, int kind)
     }
 }
 
+/* after a range assignment: the slot holds a new array / buffer only when the length changed */
+static void track_slot_if_new (int d)
+{
+  svalue_t *sv = slot (d);
+  void *p = sv->type == T_ARRAY ? (void *) sv->u.arr : sv->type == T_BUFFER ? (void *) sv->u.buf : 0;
+  if (p && !tracked (p))
+    track (p, sv->type == T_ARRAY ? K_ARR : K_BUF);
+}
+
 static void track_slot (int d)
 {
   svalue_t *sv = slot (d);
@@ -202,8 +212,28 @@ static unsigned long cell_ref (int i)
   return 0;
 }
 
+/* development aid (tools: notes/C06-coverage.md, "opcodes never executed"): C06_OPHIST=<dir> makes every case leave
+ * the per-opcode execution counts of hook verif_op_hist in <dir>/<pid> */
+extern unsigned long verif_op_hist[256];
+static void dump_ophist (void)
+{
+  const char *d = getenv ("C06_OPHIST");
+  char fn[512];
+  FILE *f;
+  if (!d)
+    return;
+  snprintf (fn, sizeof fn, "%s/%d", d, (int) getpid ());
+  if (!(f = fopen (fn, "w")))
+    return;
+  for (int i = 0; i < 256; i++)
+    if (verif_op_hist[i])
+      fprintf (f, "%d %s %lu\n", i, instrs[i].name ? instrs[i].name : "?", verif_op_hist[i]);
+  fclose (f);
+}
+
 static void print_state (const char *status)
 {
+  dump_ophist ();
   static char buf[400000];
   char *o = buf;
   long now[7];
@@ -708,6 +738,21 @@ static int applicable (int n, char **t, int *a)
           return 0;
       return 1;
     }
+  if (!strcmp (op, "arange") || !strcmp (op, "arangev") || !strcmp (op, "brange"))
+    {
+      /* v[d][i .. i+len-1] = rhs: arange d i len n t f | arangev d i len t f | brange d i len n */
+      svalue_t *dv;
+      if (!lpc_mode || !SL (a[1]) || a[2] < 0 || a[3] < 0)
+        return 0;
+      dv = slot (a[1]);
+      if (op[0] == 'b')
+        return n == 5 && dv->type == T_BUFFER && !dangling (dv) && a[2] + a[3] <= (int) dv->u.buf->size && a[4] > 0;
+      if (dv->type != T_ARRAY || dangling (dv) || a[2] + a[3] > dv->u.arr->size)
+        return 0;
+      if (op[6] == 'v')
+        return n == 6 && SL (a[4]) && a[4] != a[1] && slot (a[4])->type == T_ARRAY && !dangling (slot (a[4])) && a[5] >= 0 && a[5] < 2;
+      return n == 7 && a[4] > 0 && SL (a[5]) && a[6] >= 0 && a[6] < 2;
+    }
   if (!strcmp (op, "reclaim"))
     return n == 1 && lpc_mode;
   if (!strcmp (op, "reclaimu"))
@@ -870,7 +915,7 @@ static int c06_cmd (char *line)
       {"fill", {1, 3, 0}}, {"assign", {1, 2, 0}}, {"aset", {1, 3, 0}}, {"aget", {1, 2, 0}},
       {"mset", {1, 2, 3}}, {"mdel", {1, 2, 0}}, {"push", {1, 0, 0}}, {"popto", {1, 0, 0}},
       {"setvar", {3, 0, 0}}, {"getvar", {1, 0, 0}}, {"oref", {1, 0, 0}}, {"call", {4, 5, 0}},
-      {"sent", {3, 4, 0}}, {"inp", {2, 3, 0}}, {"inpr", {2, 3, 0}}, {"sappend", {1, 0, 0}}, {"sjoin", {1, 2, 0}}, {"sadd", {1, 2, 0}},
+      {"sent", {3, 4, 0}}, {"inp", {2, 3, 0}}, {"inpr", {2, 3, 0}}, {"arange", {1, 5, 0}}, {"arangev", {1, 4, 0}}, {"brange", {1, 0, 0}}, {"sappend", {1, 0, 0}}, {"sjoin", {1, 2, 0}}, {"sadd", {1, 2, 0}},
       {"schar", {1, 0, 0}}, {"srange", {1, 0, 0}}, {"err", {1, 2, 0}}, {"efun", {2, 3, 0}}, {"fefun", {2, 3, 0}},
       {0, {0, 0, 0}}
     };
@@ -1109,6 +1154,8 @@ static int c06_cmd (char *line)
       || !strcmp (t[0], "sappend") || !strcmp (t[0], "sjoin") || !strcmp (t[0], "sadd") || !strcmp (t[0], "schar")
       || !strcmp (t[0], "srange"))
     track_slot (a[1]);
+  else if (!strcmp (t[0], "arange") || !strcmp (t[0], "arangev") || !strcmp (t[0], "brange"))
+    track_slot_if_new (a[1]);
   else if (!strcmp (t[0], "newobj") || !strcmp (t[0], "newobjr"))
     {
       objkind[a[1]] = t[0][6] == 'r' ? 1 + a[2] : 0;
